@@ -35,6 +35,7 @@ fn lifecycle(ctx: &mut Ctx) {
     } else {
         world::swarm(ctx, SwarmOpts::default());
     }
+    let unlink_kind = [std::io::ErrorKind::PermissionDenied, std::io::ErrorKind::NotFound, std::io::ErrorKind::Other][(ctx.idx % 3) as usize];
     let fail_unlink = tr == 3 && use_close && ctx.idx >= 432 && ctx.plan(4) == 0;
     // beyond the undisturbed grid, one case in three binds a second endpoint on another transport
     let second_bind = ctx.idx >= 432 && !fail_unlink && ctx.plan(3) == 0;
@@ -242,6 +243,8 @@ fn lifecycle(ctx: &mut Ctx) {
             rt::task::idle().await;
         }
         if fail_unlink {
+            // the removal is refused, finds the file gone (a renamed directory), or fails otherwise
+            rt::rt().net.borrow_mut().fail_remove_kind = unlink_kind;
             rt::rt().net.borrow_mut().fail_remove_file = 1;
         }
         // ---- teardown ---------------------------------------------------------------------------
